@@ -163,7 +163,7 @@ theorem validSel_rootSel {c : PCtx} {A B T q : String} {fs : List FieldSpec} (S 
   simp only [ne_typename_of_not_builtin hq, Bool.false_eq_true, ↓reduceIte, hfq, argsOK, List.all_nil, hreq,
     Bool.and_self, List.isEmpty_cons, Bool.true_and]
   rw [hqT, shapeOK_composite S T _ TA hTA (by rw [hkT]; rfl)]
-  simp only [Bool.not_false, Bool.true_and, validSels, hid, hleaves, Bool.and_self]
+  simp only [validSels, hid, hleaves, Bool.and_self]
 
 theorem validFor_root {c : PCtx} {A B T q : String} {fs : List FieldSpec} {SA SB : Schema}
     (h : Fam c A B T q fs) (hs : SvcFam c A B T q fs SA SB) (ty : TypeRef) (thn : List Step) (vars : List (String × J)) :
